@@ -361,6 +361,8 @@ pub fn fault_events(seed: u64, thorough: bool, dir: &str) -> Vec<Value> {
         sem("unknown extra key", "ok", &|x| { x["comment"] = json!("hello"); });
         sem("settings wrong type", "Schema", &|x| { x["settings"]["max_iter"] = json!("many"); });
         sem("invalid direct_solve_method", "Settings", &|x| { x["settings"]["direct_solve_method"] = json!("qdlxl"); });
+        sem("direct_solve_method in another letter case", "Settings", &|x| { x["settings"]["direct_solve_method"] = json!("Auto"); });
+        sem("direct_solve_method upper case", "Settings", &|x| { x["settings"]["direct_solve_method"] = json!("QDLDL"); });
         sem("invalid merge method", "Settings", &|x| { x["settings"]["chordal_decomposition_merge_method"] = json!("clique_grph"); });
         sem("top level array", "Schema", &|x| { *x = json!([1, 2, 3]); });
         // settings supplied at load time replace the stored ones: stored settings this build cannot use do not matter
@@ -472,6 +474,14 @@ pub fn roundtrip_events(seed: u64, count: usize, dir: &str) -> (Vec<Value>, Vec<
             if let ConeSpec::GenPow(al, _) = c {
                 if al.len() == 3 && rng.gen::<f64>() < 0.5 { *al = [vec![0.2, 0.7, 0.1], vec![0.3, 0.6, 0.1], vec![0.1, 0.2, 0.7]][rng.gen_range(0..3)].clone(); }
             }
+        }
+        // now and then no constraints at all (A is 0 x n, no cones)
+        if rng.gen::<f64>() < 0.06 {
+            let n = p.n();
+            p.A = Csc::zeros(0, n);
+            p.b = vec![];
+            p.cones = vec![];
+            if p.P.nzval.is_empty() { let mut d = vec![vec![0.0; n]; n]; for j in 0..n { d[j][j] = 1.0 + j as f64; } p.P = Csc::from_dense(&d, n, n); }
         }
         // P supplied as a full symmetric matrix (the file holds its upper triangle)
         if rng.gen::<f64>() < 0.2 && p.P.nzval.len() > 0 {
